@@ -34,7 +34,7 @@ theorem writeEvents_ok {plan : Nat → Fault} (evs : List (List Nat)) :
     | crash s1 => simp only [h1] at h; cases h
     | ok a1 s1 =>
       simp only [h1] at h
-      obtain ⟨e1, e2, e3, e4, e5, e6⟩ := writeEvent_ok h1
+      obtain ⟨e1, e2, e3, e4, e5, e6, _⟩ := writeEvent_ok h1
       obtain ⟨r1, r2, r3, r4, r5, r6⟩ := ih h
       refine ⟨r1, ?_, by rw [r3, e2], by rw [r4, e3], by rw [r5, e4], by rw [r6, e6]⟩
       rw [r2, e1, e4, e5, appendBytes_appendBytes]
